@@ -17,7 +17,7 @@ def lua_script(name):
     if name not in _LUA_CACHE or not os.path.exists(_LUA_CACHE[name]):
         dst_dir = os.path.join(run.scratch_root(), "lua")
         os.makedirs(dst_dir, exist_ok=True)
-        dst = os.path.join(dst_dir, name)
+        dst = os.path.join(dst_dir, name.replace("/", "_"))
         shutil.copyfile(os.path.join(LUA_DIR, name), dst)
         _LUA_CACHE[name] = dst
     return _LUA_CACHE[name]
